@@ -326,6 +326,7 @@ def encSpritesD4 : List RawSpriteD4 → Bytes
 def encFrameD4 (f : RawFrameD4) : Bytes := encMainD4 f.main ++ encPalD4 f.pal ++ encSpritesD4 f.sprites
 def viewFrameD4 (f : RawFrameD4) : Frame := ⟨viewMainD4 f.main, viewPalD4 f.pal, f.sprites.map viewSpriteD4⟩
 def RawFrameD4.Valid (f : RawFrameD4) : Prop := f.main.Valid ∧ f.pal.Valid ∧ ∀ s ∈ f.sprites, s.Valid
+instance (f : RawFrameD4) : Decidable f.Valid := by unfold RawFrameD4.Valid; infer_instance
 
 structure RawFrameD5 where
   main : RawMainD5
@@ -339,6 +340,7 @@ def encSpritesD5 : List RawSpriteD5 → Bytes
 def encFrameD5 (f : RawFrameD5) : Bytes := encMainD5 f.main ++ encPalD5 f.pal ++ encSpritesD5 f.sprites
 def viewFrameD5 (f : RawFrameD5) : Frame := ⟨viewMainD5 f.main, viewPalD5 f.pal, f.sprites.map viewSpriteD5⟩
 def RawFrameD5.Valid (f : RawFrameD5) : Prop := f.main.Valid ∧ f.pal.Valid ∧ ∀ s ∈ f.sprites, s.Valid
+instance (f : RawFrameD5) : Decidable f.Valid := by unfold RawFrameD5.Valid; infer_instance
 
 end Drx.Vwsc.Spec
 
